@@ -56,6 +56,11 @@ func loadProgram(root string) (*Program, error) {
 	if len(errs) > 0 {
 		return nil, fmt.Errorf("load errors:\n%s", strings.Join(errs, "\n"))
 	}
+	packages.Visit(pkgs, nil, func(p *packages.Package) {
+		if p.Types != nil && p.TypesInfo != nil {
+			typesInfoByPkg[p.Types] = p.TypesInfo
+		}
+	})
 	prog, _ := ssautil.AllPackages(pkgs, ssa.InstantiateGenerics|ssa.GlobalDebug)
 	prog.Build()
 	p := &Program{Root: root, Pkgs: pkgs, SSA: prog, byPkg: map[string]*ssa.Package{},
@@ -189,6 +194,12 @@ func (p *Program) lookupType(q string) types.Type {
 		t = types.NewPointer(t)
 	}
 	return t
+}
+
+var typesInfoByPkg = map[*types.Package]*types.Info{}
+
+func typesInfoFor(p *ssa.Package) *types.Info {
+	return typesInfoByPkg[p.Pkg]
 }
 
 // loopOrdinals returns, for fn, the loop header blocks in source order of the
